@@ -32,7 +32,7 @@ type CallCase struct {
 var callParams = []string{"pa", "pb", "pc"}
 
 // names that must not be visible after the calls/cases that created them
-var callProbeNames = []string{"pa", "pb", "pc", "la", "li", "lx", "mq", "ma", "loc1", "loc2", "ga", "ca", "va", "rn", "en", "on", "na", "ra", "loc3", "da", "dx", "dq", "oa", "qa", "ma1", "ma2", "mo", "mb1", "mb2", "qb", "loc4", "loc5", "wn", "wx", "lq", "lm1", "lother", "lb", "lbo", "ml1", "mlo", "wa", "t1", "t2", "t3", "fa", "fl", "fr", "ns", "nc", "sa"}
+var callProbeNames = []string{"pa", "pb", "pc", "la", "li", "lx", "mq", "ma", "loc1", "loc2", "ga", "ca", "va", "rn", "en", "on", "na", "ra", "loc3", "da", "dx", "dq", "oa", "qa", "ma1", "ma2", "mo", "mb1", "mb2", "qb", "loc4", "loc5", "wn", "wx", "lq", "lm1", "lother", "lb", "lbo", "ml1", "mlo", "wa", "t1", "t2", "t3", "fa", "fl", "fr", "ns", "nc", "sa", "acc", "sacc", "lacc", "fo", "fs", "fn"}
 
 func (c *CallCase) program() string {
 	var sb strings.Builder
@@ -88,6 +88,15 @@ function fresh(fa) { if (fl is unknown) { fr = "fresh" } else { fr = "stale" }
  return fr }
 function nextstr(ns) { for (nc in "xyz") { if (nc == "y") { NX = ns
  next } } }
+function mkfresh() { fa = []
+ fa.push(1)
+ fo = {}
+ fo.k = "v"
+ fs = "s"
+ fs = fs + "t"
+ fn = 0
+ fn++
+ return [fa.length(), fo.length(), fs, fn] }
 function shadow(sa, G) { G = [sa]
  return G }
 function proc(qb) { loc4 = clobber(qb)
@@ -137,6 +146,21 @@ $.op == "fresh2" { print step, fresh($.a[0]), fresh($.a[1]) }
 $.op == "nextstr" { print step, "beforestr"
  nextstr($.a[0])
  print step, "NOT REACHED" }
+$.op == "argorder" { print step, fid(G, setg($.a[0]), G), G }
+$.op == "argincr" { cnt = 5
+ print step, fid(cnt, cnt++, cnt), cnt }
+$.op == "mlet" { mres2 = "none"
+ mres3 = "none"
+ mres4 = "none"
+ match (0) { acc => { acc += 3
+ acc++
+ mres2 = acc } }
+ match ("s") { sacc => { sacc = sacc + "x"
+ mres3 = sacc } }
+ match ([1]) { [lacc] => { lacc += 1
+ mres4 = lacc } }
+ print step, mres2, mres3, mres4 }
+$.op == "mkfresh" { print step, mkfresh() }
 $.op == "shadow" { print step, shadow($.a[0]), G }
 $.op == "clobmiss" { r1 = clobber($.a[7])
  r2 = clobber($.nokey)
@@ -336,6 +360,26 @@ func (c *CallCase) model() (lines []string, exited bool, ok bool) {
 			emit("beforestr")
 			NX = arg(0)
 			skipEOR = true
+		case "argorder":
+			// arguments are bound to the values they had when each was evaluated, left to right
+			old := G
+			G = arg(0)
+			bound := []*JVal{old, G, G}
+			if c.Arity < 3 {
+				bound = bound[:c.Arity]
+			}
+			emit(p(arr(bound...)) + " " + p(G))
+		case "argincr":
+			bound := []*JVal{num(5), num(5), num(6)}
+			if c.Arity < 3 {
+				bound = bound[:c.Arity]
+			}
+			emit(p(arr(bound...)) + " 6")
+		case "mlet":
+			// names bound to literals: the literal is the same every time
+			emit("4 sx 2")
+		case "mkfresh":
+			emit(p(arr(num(1), num(1), str("st"), num(1))))
 		case "shadow":
 			// the omitted second parameter is a fresh local named like the global G
 			emit(p(arr(arg(0))) + " " + p(G))
@@ -611,8 +655,8 @@ func genCallArg(t *Tape) string {
 }
 
 func genCallOp(t *Tape) CallOp {
-	ops := []string{"id0", "id1", "id2", "id3", "id4", "loopret", "mklocal", "setg", "readg", "clobber", "viaother", "rec", "mutual", "donext", "donext2", "noret", "outer", "mexpr", "mblock", "pat", "proc", "walk", "mlit", "litmatch", "litblock", "awkloc0", "awkloc1", "awkloc2", "fresh", "fresh2", "nextstr", "shadow", "clobmiss", "nextexpr"}
-	w := []int{1, 2, 2, 2, 2, 3, 3, 2, 2, 3, 2, 2, 1, 3, 2, 2, 2, 4, 3, 2, 3, 2, 3, 3, 2, 1, 2, 2, 4, 2, 2, 3, 3, 2}
+	ops := []string{"id0", "id1", "id2", "id3", "id4", "loopret", "mklocal", "setg", "readg", "clobber", "viaother", "rec", "mutual", "donext", "donext2", "noret", "outer", "mexpr", "mblock", "pat", "proc", "walk", "mlit", "litmatch", "litblock", "awkloc0", "awkloc1", "awkloc2", "fresh", "fresh2", "nextstr", "shadow", "clobmiss", "nextexpr", "argorder", "argincr", "mlet", "mkfresh"}
+	w := []int{1, 2, 2, 2, 2, 3, 3, 2, 2, 3, 2, 2, 1, 3, 2, 2, 2, 4, 3, 2, 3, 2, 3, 3, 2, 1, 2, 2, 4, 2, 2, 3, 3, 2, 3, 2, 4, 3}
 	op := ops[t.Weighted(w...)]
 	var args []string
 	switch op {
